@@ -28,7 +28,8 @@
 (***************************************************************************)
 EXTENDS Naturals, Sequences, FiniteSets, TLC
 
-CONSTANTS MaxL,       \* source lengths 0..MaxL are explored
+CONSTANTS MinL,       \* source lengths MinL..MaxL are explored (MinL = 0 except for the long-source runs)
+          MaxL,
           MaxCS,      \* chunk sizes 1..MaxCS
           Kinds,      \* subset of {"slice", "random", "parquet"}
           MaxGroups,  \* parquet: up to MaxGroups row groups (all compositions of L)
@@ -64,7 +65,7 @@ RECURSIVE SeqSum(_)
 SeqSum(q) == IF q = <<>> THEN 0 ELSE q[1] + SeqSum(Tail(q))
 Compositions(n) == { g \in UNION { [1..m -> 1..MaxL] : m \in 1..MaxGroups } : SeqSum(g) = n }
 
-Init == /\ \E l \in 0..MaxL, c \in 1..MaxCS, k \in Kinds, n \in 1..2 :
+Init == /\ \E l \in MinL..MaxL, c \in 1..MaxCS, k \in Kinds, n \in 1..2 :
              \E g \in (IF k = "parquet" /\ l > 0 THEN Compositions(l) ELSE {<<>>}) :
                 p = [L |-> l, CS |-> c, Kind |-> k, Groups |-> g, Passes |-> n]
         /\ pass = 0 /\ pos = 0 /\ reqs = <<>> /\ chunks = <<>>
